@@ -78,7 +78,7 @@ def _run(cmd, cwd=None, logf=None):
     return r.stdout
 
 
-def _prune(flavour, keep_dir, keep=3):
+def _prune(flavour, keep_dir, keep=16):
     try:
         ents = [os.path.join(CACHE, d) for d in os.listdir(CACHE)
                 if d.startswith(flavour + "-")]
